@@ -89,10 +89,10 @@ func TestUnminedInput(t *testing.T) {
 		//put
 		putRawUnminedInput(bucket, k, tx2.Hash().Bytes())
 		//get
-		result := existsRawUnminedInput(bucket, k)
+		result, _ := existsRawUnminedInput(bucket, k)
 		t.Log("exists v:", result)
 		deleteRawUnminedInput(bucket, k)
-		result = existsRawUnminedInput(bucket, k)
+		result, _ = existsRawUnminedInput(bucket, k)
 		t.Log("delete v:", result)
 		return nil
 	})
